@@ -49,6 +49,15 @@ def _closure_info(cb):
             out[name] = ["msg", v.correlation_id]
     return out
 
+def _task_id(v, now):
+    """What a cancellation handle refers to: a correlation id, or (for a Wait) the timer object - described by what it will
+    do and when, never by its memory address."""
+    if isinstance(v, (str, int, float, bool)) or v is None:
+        return v
+    if hasattr(v, "deadline") and hasattr(v, "callback"):
+        return ["timer", round(v.deadline - now, 6), simcore.timer_kind(v.callback), bool(getattr(v, "live", True))]
+    return type(v).__name__
+
 def snapshot(w):
     b = w.broker
     now = w.clock.now
@@ -105,7 +114,7 @@ def snapshot(w):
             "unack_ids": setlike(list(d.unacknowledged_messages.keys())),
             "bm": setlike(bm),
             "pending": setlike([[k, v[1], v[2], v[4]] for k, v in td.pending_requests.items()]),
-            "cancellers": setlike([[k, v.get("Type"), v.get("TaskID"), v.get("Execution")] for k, v in td.cancellers.items()]),
+            "cancellers": setlike([[k, v.get("Type"), _task_id(v.get("TaskID"), now), v.get("Execution")] for k, v in td.cancellers.items()]),
             "orphans": setlike(list(td.orphaned_responses.keys())),
             "orph_sched": td.handle_orphaned_responses_is_scheduled,
             "uptime_short": (now - td.startup_time) * 1000 < (td.orphaned_response_retention_ms or 0),
